@@ -43,7 +43,7 @@ func (l *Lexer) scanLineStart() Token {
 		return l.scanComment()
 	}
 
-	if l.isWhitespace(l.peek()) && l.peek() != '\n' {
+	if l.isWhitespace(l.peek()) && !l.atLineEnd() {
 		return l.scanIndent()
 	}
 
@@ -69,7 +69,7 @@ func (l *Lexer) scanInLine() Token {
 	r := l.peekRune()
 
 	switch {
-	case ch == '\n':
+	case ch == '\n' || l.atLineEnd():
 		return l.scanNewline()
 	case ch == ';':
 		return l.scanComment()
@@ -150,7 +150,7 @@ func (l *Lexer) scanCode() Token {
 	l.advance()
 
 	start := l.pos
-	for l.pos < len(l.input) && l.peek() != ')' && l.peek() != '\n' {
+	for !l.atLineEnd() && l.peek() != ')' {
 		l.advance()
 	}
 	value := l.input[start:l.pos]
@@ -167,7 +167,7 @@ func (l *Lexer) scanComment() Token {
 	l.advance()
 
 	start := l.pos
-	for l.pos < len(l.input) && l.peek() != '\n' {
+	for !l.atLineEnd() {
 		l.advance()
 	}
 
@@ -179,7 +179,7 @@ func (l *Lexer) scanIndent() Token {
 	start := l.pos
 	startPos := l.position()
 
-	for l.pos < len(l.input) && l.isWhitespace(l.peek()) && l.peek() != '\n' {
+	for !l.atLineEnd() && l.isWhitespace(l.peek()) {
 		l.advance()
 	}
 
@@ -189,6 +189,9 @@ func (l *Lexer) scanIndent() Token {
 
 func (l *Lexer) scanNewline() Token {
 	startPos := l.position()
+	if l.peek() == '\r' {
+		l.advance() // CRLF is one line ending
+	}
 	l.advance()
 	l.line++
 	l.column = 1
@@ -293,7 +296,7 @@ func (l *Lexer) scanQuotedCommodity() Token {
 	l.advance()
 
 	start := l.pos
-	for l.pos < len(l.input) && l.peek() != '"' && l.peek() != '\n' {
+	for !l.atLineEnd() && l.peek() != '"' {
 		l.advance()
 	}
 	value := l.input[start:l.pos]
@@ -405,7 +408,7 @@ func (l *Lexer) scanText() Token {
 
 	for l.pos < len(l.input) {
 		ch := l.peek()
-		if ch == '\n' || ch == ';' || ch == '|' {
+		if l.atLineEnd() || ch == ';' || ch == '|' {
 			break
 		}
 		l.advance()
@@ -413,6 +416,15 @@ func (l *Lexer) scanText() Token {
 
 	value := strings.TrimSpace(l.input[start:l.pos])
 	return Token{Type: TokenText, Value: value, Pos: startPos, End: l.position()}
+}
+
+// atLineEnd reports whether the lexer stands at the end of the current line's
+// content: at end of input, at a line feed, or at the CR of a CRLF line ending.
+func (l *Lexer) atLineEnd() bool {
+	if l.pos >= len(l.input) || l.input[l.pos] == '\n' {
+		return true
+	}
+	return l.input[l.pos] == '\r' && l.pos+1 < len(l.input) && l.input[l.pos+1] == '\n'
 }
 
 func (l *Lexer) peek() byte {
